@@ -565,6 +565,64 @@ def gym_ids(ctx):
                           {'id': gid, 'file': fname, 'seed': seed, 'actions': acts})
 
 
+def custom_example(ctx):
+    """examples/coin_env.yaml names CUSTOM components (`module:name`): built LATE in the process -- after dozens of other configurations -- it must
+    still resolve every name (the module is imported on demand, its grid-object and functions register themselves then) and behave like the
+    environment assembled by hand from that module's functions"""
+    from functools import partial
+    from gym_gridverse.envs import observation_functions as ofs, reward_functions as rfs, terminating_functions as tfs, transition_functions as trfs
+    from gym_gridverse.envs.gridworld import GridWorld
+    from gym_gridverse.geometry import Area, Shape
+    from gym_gridverse.grid_object import Color, Floor, Wall, grid_object_registry as reg
+    from gym_gridverse.spaces import ActionSpace, ObservationSpace, StateSpace
+    r = ctx.rng
+    path = os.path.join(vt.boot.REPO, 'examples', 'coin_env.yaml')
+    if not os.path.exists(path):
+        return
+    data = envs.load_yaml(path)
+    before = copy.deepcopy(data)
+    n_types = len(reg.data)
+    try:
+        try:
+            env = factory_env_from_data(data)
+        except Exception as e:  # noqa: BLE001
+            ctx.violation(f'examples/coin_env.yaml does not build (after other configurations were built in this process): {type(e).__name__}: {e}', {'file': 'examples/coin_env.yaml'})
+            return
+        if data != before:
+            ctx.violation('building examples/coin_env.yaml modified the input data', {'file': 'examples/coin_env.yaml'})
+        import coin_env as ce
+        acts = [envs.ACTS[envs.ANAMES.index(n)] for n in before['action_space']]
+        a = before['observation_function']['area']
+        area = Area(tuple(a[0]), tuple(a[1]))
+        hand_reset = ce.coin_maze
+        s0 = hand_reset(rng=__import__('numpy').random.default_rng(0))
+        hand = GridWorld(
+            StateSpace(s0.grid.shape, [Wall, Floor, ce.Coin], [Color.NONE]), ActionSpace(acts),
+            ObservationSpace(Shape(area.height, area.width), [Wall, Floor, ce.Coin], [Color.NONE]),
+            hand_reset,
+            partial(trfs.chain, transition_functions=[trfs.move_agent, trfs.turn_agent, ce.collect_coin_transition]),
+            partial(ofs.partially_occluded, area=area),
+            partial(rfs.reduce_sum, reward_functions=[partial(rfs.living_reward, reward=-0.1), ce.collect_coin_reward]),
+            ce.no_more_coins)
+        for k in range(4 if ctx.tier == 'quick' else 30):
+            seed = r.randrange(1 << 30)
+            env.set_seed(seed)
+            hand.set_seed(seed)
+            env.reset()
+            hand.reset()
+            ok = env.state == hand.state
+            for _ in range(40):
+                i = r.randrange(len(acts))
+                ok = ok and env.step(acts[i]) == hand.step(acts[i]) and env.state == hand.state and env.observation == hand.observation
+            ctx.case(('custom-example', k), True, None)
+            ctx.count('custom example', 'trajectory')
+            if not ok:
+                ctx.violation('examples/coin_env.yaml: the factory-built environment and the one assembled by hand from the module it names behave differently', {'file': 'examples/coin_env.yaml', 'seed': seed})
+                break
+    finally:
+        del reg.data[n_types:]
+
+
 def run(ctx):
     ctx.rule = ('(a) 6 registries x every registered name (+ unknown) x random keyword sets incl. missing required, extra and falsy-valued keys; '
                 '(b) 21 shipped files: copies, ids, build, purity, repeatability, three-way trajectories (factory / by hand / model) with mid-episode resets; '
@@ -576,6 +634,7 @@ def run(ctx):
     corrupted(ctx)
     config_trees(ctx)
     gym_ids(ctx)
+    custom_example(ctx)          # last: importing the example module registers its components for the rest of the process
 
 
 if __name__ == '__main__':
